@@ -30,7 +30,11 @@ Inductive c15case :=
 | MssRT (pr : list rune) (m : list (str * list str)) (impl_str : str)
         (impl : outcome (list (str * list str)))
 (* parse.String(s, t) on arbitrary text *)
-| Typed (pr : list rune) (t : ty) (s : str) (impl : outcome pval).
+| Typed (pr : list rune) (t : ty) (s : str) (impl : outcome pval)
+(* float / complex literals: no Gallina model (IEEE arithmetic is not modelled).  The harness
+   compares dials with Go's own strconv at the target bit size (direct oracle) and reports
+   whether they agreed; nothing is proved about these cases. *)
+| FloatDirect (agrees : bool).
 
 Definition sw_of (w : N) : swidth :=
   match w with 0 => I8 | 1 => I16 | 2 => I32 | 3 => I64 | _ => IInt end.
@@ -209,6 +213,7 @@ Definition check (c : c15case) : N :=
                      else if out_eqb pval_eqb impl model then 0 else 1
            | _ => if out_eqb pval_eqb impl model then 0 else 1
            end
+  | FloatDirect agrees => if agrees then 0 else 3
   end.
 
 Fixpoint run_from (i : N) (cs : list c15case) : list (N * N) :=
